@@ -731,3 +731,53 @@ Section OneStruct.
     Qed.
   End Root.
 End OneStruct.
+
+(* ------------------------------------------------------------------------------------------------ *)
+(* response side: the field loop of one struct = the fold of the table's resp_field                  *)
+(* ------------------------------------------------------------------------------------------------ *)
+Definition r_err (o : hopts) (p : fdesc * list Z) : bool := match resp_field o (fst p) (snd p) with ROError => true | _ => false end.
+Definition r_body (o : hopts) (p : fdesc * list Z) : bool := in_json_body (resp_field o (fst p) (snd p)).
+Definition r_deliver (o : hopts) (r : response) (p : fdesc * list Z) : response :=
+  match resp_field o (fst p) (snd p) with RODelivered k key v => deliver k key v r | _ => r end.
+Definition r_cookie (o : hopts) (p : fdesc * list Z) : kv :=
+  match resp_field o (fst p) (snd p) with RODelivered k key v => if k =? K_COOKIE then [(key, v)] else [] | _ => [] end.
+
+(* no field's mappings fail fatally: the member names added are exactly the fields the table puts in the body (in order), the response
+   object receives exactly the table's deliveries (each field at most one, to its first succeeding target, in order); otherwise error *)
+Theorem t2j_fields_loop_refines_table : forall o l names r,
+  t2j_fields_loop o l names r =
+  if existsb (r_err o) l then TSErr
+  else TS (names ++ map (fun p => f_name (fst p)) (filter (r_body o) l)) (fold_left (r_deliver o) l r).
+Proof.
+  intros o l. induction l as [|[f text] rest IH]; intros names r; simpl.
+  - rewrite app_nil_r. reflexivity.
+  - cbn [existsb filter fold_left].
+    change (r_err o (f, text)) with (match resp_field o f text with ROError => true | _ => false end).
+    change (r_body o (f, text)) with (in_json_body (resp_field o f text)).
+    change (r_deliver o r (f, text)) with (match resp_field o f text with RODelivered k key v => deliver k key v r | _ => r end).
+    rewrite t2j_field_spec.
+    destruct (resp_field o f text); cbn [in_json_body orb map fst]; rewrite ?IH; try reflexivity.
+    destruct (existsb (r_err o) rest); [reflexivity|]. rewrite <- app_assoc. reflexivity.
+Qed.
+
+(* a field is never both in the body and delivered; it is neither exactly when the table says "dropped" (all mappings failed, errors
+   omitted, no WriteHttpValueFallback) or "swallowed" (api.raw_uri: Response succeeds without a target) *)
+Lemma resp_field_exclusive : forall o f text,
+  match resp_field o f text with
+  | RODelivered _ _ _ => in_json_body (resp_field o f text) = false
+  | ROBody => forall k key v, resp_field o f text <> RODelivered k key v
+  | _ => True
+  end.
+Proof. intros o f text. destruct (resp_field o f text) eqn:E; try exact I; [reflexivity | intros; discriminate]. Qed.
+
+(* cookie setter semantics over the whole loop: the Set-Cookie lines are the initial ones followed by one line per cookie delivery *)
+Lemma fold_deliver_cookies : forall o l r,
+  rs_cookies (fold_left (r_deliver o) l r) = rs_cookies r ++ flat_map (r_cookie o) l.
+Proof.
+  intros o l. induction l as [|p rest IH]; intros r; simpl; [rewrite app_nil_r; reflexivity|].
+  rewrite IH.
+  change (r_deliver o r p) with (match resp_field o (fst p) (snd p) with RODelivered k key v => deliver k key v r | _ => r end).
+  change (r_cookie o p) with (match resp_field o (fst p) (snd p) with RODelivered k key v => if k =? K_COOKIE then [(key, v)] else [] | _ => [] end).
+  destruct (resp_field o (fst p) (snd p)); cbn [app]; try reflexivity.
+  rewrite deliver_cookies. destruct (kind =? K_COOKIE); [rewrite <- app_assoc; reflexivity | reflexivity].
+Qed.
